@@ -854,6 +854,14 @@ def r01_14(ctx):
          ctx.bad(construct, f"`{ast.unparse(c)[:50]}` is reached under {sorted(gs)}: operands that are numbers are compared by their spelling", f.loc(c)))
 
 
+def r01_15(ctx):
+    """R01.15 a condition means the same under both parsers: `!A = B` negates the relation (C04 R04.12: parser 2 parses the operand of `!`
+    after the relations) - under the other precedence the condition of a prompt / default / range does not even evaluate."""
+    from . import c04
+    from .common import delegate
+    delegate(ctx, c04.r04_12, lambda c: True)
+
+
 def rules():
-    return [("R01.14", r01_14, 2), ("R01.13", r01_13, 3), ("R01.12", r01_12, 8), ("R01.11", r01_11, 1), ("R01.10", r01_10, 2), ("R01.9", r01_9, 10), ("R01.1", r01_1, 9), ("R01.2", r01_2, 5), ("R01.3", r01_3, 5), ("R01.4", r01_4, 12), ("R01.5", r01_5, 7),
+    return [("R01.15", r01_15, 3), ("R01.14", r01_14, 2), ("R01.13", r01_13, 3), ("R01.12", r01_12, 8), ("R01.11", r01_11, 1), ("R01.10", r01_10, 2), ("R01.9", r01_9, 10), ("R01.1", r01_1, 9), ("R01.2", r01_2, 5), ("R01.3", r01_3, 5), ("R01.4", r01_4, 12), ("R01.5", r01_5, 7),
             ("R01.6", r01_6, 5), ("R01.7", r01_7, 4), ("R01.8", r01_8, 14)]
